@@ -193,10 +193,11 @@ Expressions, truthiness and the function pool are those of the Spec (`evalExpr`,
 
 /-- **interp_matches_gen_structure_partial**: for every template of the fragment `frag` — text, `{{ expression }}`,
 `{% raw %}` / `{% module %}`, `{% if %}` with any number of `{% elif %}` and a final `{% else %}`, `{% for %}` over a
-finite list with an optional `{% else %}`, nested arbitrarily, under any whitespace mode and any autoescape function
-(comments, `{% whitespace %}`, `{% autoescape %}` leave no node) — the output of the direct interpreter is the denotation
-of the generated Python line list.  Not covered (the remaining part of the goal): `set`/`import`, `break`/`continue`,
-`while`, `try`, `apply`, `block`/`extends`/`include`. -/
+finite list with an optional `{% else %}`, `{% set x = e %}`, `{% break %}`, `{% continue %}`, nested arbitrarily, under any
+whitespace mode and any autoescape function (comments, `{% whitespace %}`, `{% autoescape %}` leave no node) — the output of
+the direct interpreter is the denotation of the generated Python line list.  The side condition `stmtOK` on `set` is
+necessary: `{% set _tt_tmp = x %}{{ _tt_tmp }}` collides with the generator's own temporary.  Not covered (the remaining
+part of the goal): `import`/`from`, `while`, `try`, `apply`, `block`/`extends`/`include`. -/
 theorem interp_matches_gen_structure_partial (L : Loader) (t : FileInfo) (env : Env) (fuel : Nat) (lines : List Line)
     (out : List Nat) (hfrag : frag .plain t.body = true) (hgen : generatePython L fuel t = .ok lines)
     (hr : render L fuel t env = .ok out) : pyRun lines env = .ok out := by
@@ -233,7 +234,7 @@ example : render [exT] 12 exT [] = .error (/-"NameError"-/ [78, 97, 109, 101, 69
 /-- the stretch goal as it was first stated.  NOTE: with the semantics existentially quantified *inside* the statement it
 is weak (any constant function is a witness); the content is in `interp_matches_gen_structure_partial`, which fixes
 `sem := pyRun`.  What remains open (tie only, covered by the two correspondence streams) is the extension of `pyRun`
-and of the proof to `set`, `apply`, `block`/`extends`/`include`, `while`, `try`, `break`/`continue`. -/
+and of the proof to `apply`, `block`/`extends`/`include`, `while`, `try`, `import`. -/
 def interp_matches_gen_structure_goal : Prop :=
   ∀ (L : Loader) (t : FileInfo) (env : Env) (fuel : Nat) (lines : List Line) (out : List Nat),
     generatePython L fuel t = .ok lines → render L fuel t env = .ok out →
